@@ -66,7 +66,7 @@ package swagtool
 //@ func GetMapItemType props C07,C14
 //@ ensures true
 
-//@ func HttpStatusCodeToString props C06,C14
+//@ func HttpStatusCodeToString props C06,C14 pure
 //@ ensures true
 
 //@ func GetJsonNameFromTag props C07,C14
